@@ -95,6 +95,18 @@ func wcChild(a []string) string {
 	startListen := func() {
 		go func() { listenRes <- classifyErr(conn.Listen()) }()
 	}
+	// wait until a read loop is blocked inside ReadMessage (a fixed sleep is not enough on a loaded machine)
+	waitReading := func() {
+		for i := 0; i < 4000; i++ {
+			f.mu.Lock()
+			in := f.inRead
+			f.mu.Unlock()
+			if in >= 1 {
+				return
+			}
+			time.Sleep(500 * time.Microsecond)
+		}
+	}
 	reverted := false
 	stopWatch := make(chan struct{})
 	var watchWG sync.WaitGroup
@@ -120,7 +132,7 @@ func wcChild(a []string) string {
 	}()
 	if listen {
 		startListen()
-		time.Sleep(5 * time.Millisecond) // let the reader block in ReadMessage
+		waitReading()
 	}
 	switch peer {
 	case "first1000":
@@ -130,8 +142,12 @@ func wcChild(a []string) string {
 	case "sever":
 		f.reads <- readRes{err: &net.OpError{Op: "read", Err: errors.New("connection reset")}}
 	}
-	if strings.HasPrefix(peer, "first") || peer == "sever" {
-		time.Sleep(5 * time.Millisecond)
+	if (strings.HasPrefix(peer, "first") || peer == "sever") && listen && scen != "errwriters" {
+		// with the default ReadHandler the library closes the connection itself: let it finish, so that what the
+		// callers then see does not depend on the machine's load
+		for i := 0; i < 4000 && !conn.Closed(); i++ {
+			time.Sleep(500 * time.Microsecond)
+		}
 	}
 	var results []string
 	var mu sync.Mutex
@@ -182,12 +198,21 @@ func wcChild(a []string) string {
 		}
 		time.Sleep(2 * time.Millisecond)
 		close(start)
-		time.Sleep(15 * time.Millisecond)
+		// one call is admitted and blocks in the read loop; the other n-1 must come back before anything is closed
+		var ls []string
+		for len(ls) < n-1 {
+			select {
+			case r := <-lres:
+				ls = append(ls, r)
+			case <-time.After(2 * time.Second):
+				ls = append(ls, "late")
+			}
+		}
+		waitReading()
 		t0 := time.Now()
 		results = append(results, classifyErr(conn.Close()))
 		maxms = time.Since(t0).Milliseconds()
-		var ls []string
-		for i := 0; i < n; i++ {
+		for len(ls) < n {
 			select {
 			case r := <-lres:
 				ls = append(ls, r)
@@ -202,7 +227,7 @@ func wcChild(a []string) string {
 		// n goroutines write data frames at once; then one Close
 		if !listen {
 			startListen()
-			time.Sleep(5 * time.Millisecond)
+			waitReading()
 			listen = true
 		}
 		if peer == "sever" {
@@ -229,14 +254,16 @@ func wcChild(a []string) string {
 		// the peer sends n data messages, the caller's handler fails on the first; then one Close
 		if !listen {
 			startListen()
-			time.Sleep(5 * time.Millisecond)
+			waitReading()
 			listen = true
 		}
 		for i := 0; i < n; i++ {
 			f.reads <- readRes{mt: websocket.BinaryMessage, p: []byte{byte(i)}}
 			time.Sleep(time.Millisecond)
 		}
-		time.Sleep(5 * time.Millisecond)
+		for i := 0; i < 4000 && int(atomic.LoadInt32(&handled)) < n; i++ {
+			time.Sleep(500 * time.Microsecond)
+		}
 		t0 := time.Now()
 		results = append(results, classifyErr(conn.Close()))
 		maxms = time.Since(t0).Milliseconds()
@@ -248,7 +275,7 @@ func wcChild(a []string) string {
 		case 0:
 			if !listen {
 				startListen()
-				time.Sleep(5 * time.Millisecond)
+				waitReading()
 				listen = true
 			}
 			extraListen = classifyErr(conn.Listen())
@@ -256,7 +283,7 @@ func wcChild(a []string) string {
 		default:
 			if !listen {
 				startListen()
-				time.Sleep(5 * time.Millisecond)
+				waitReading()
 				listen = true
 			}
 			results = append(results, classifyErr(conn.Close()))
@@ -300,7 +327,7 @@ func wcChild(a []string) string {
 	sort.Strings(results)
 	// reader goroutines of the library still alive after everything returned
 	leak := 0
-	for try := 0; try < 20; try++ {
+	for try := 0; try < 400; try++ {
 		buf := make([]byte, 1<<20)
 		buf = buf[:runtime.Stack(buf, true)]
 		leak = strings.Count(string(buf), ").runReadLoop(")
